@@ -8,6 +8,7 @@ package main
 
 import (
 	"fmt"
+	"strings"
 
 	"golang.org/x/tools/go/ssa"
 )
@@ -30,6 +31,12 @@ type threadState struct {
 	held    map[Ptr]*symThread
 	active  bool
 	order   []int
+	// preemption-bounded exploration (CHESS style): besides the blocking operations, every
+	// struct-field address computation in the code under test is a point where the scheduler
+	// may switch to another runnable thread, at most maxPreempts times per path.
+	preempts    int
+	maxPreempts int
+	last        *symThread
 }
 
 func (p *Path) ts() *threadState {
@@ -85,12 +92,43 @@ func registerThreadIntrinsics() {
 	intrinsics["(*sync.RWMutex).Unlock"] = unlock
 }
 
+// preemptionPoint is called before a struct field of the code under test is addressed.
+func (p *Path) preemptionPoint(fn *ssa.Function) {
+	st := p.threadsSt
+	if st == nil || !st.active || st.cur == nil || st.preempts >= st.maxPreempts {
+		return
+	}
+	if fn.Pkg == nil || !strings.HasPrefix(fn.Pkg.Pkg.Path(), modPath) || strings.HasSuffix(fn.Pkg.Pkg.Path(), "/zzrt") {
+		return
+	}
+	for f := fn; f != nil; f = f.Parent() {
+		if strings.HasPrefix(f.Name(), "ZZ") {
+			return // harness code
+		}
+	}
+	unfinished := 0
+	for _, t := range st.threads {
+		if !t.done {
+			unfinished++
+		}
+	}
+	if unfinished < 2 {
+		return
+	}
+	t := st.cur
+	t.frames = p.frames
+	st.yield <- struct{}{}
+	<-t.resume
+	p.frames = t.frames
+}
+
 func (p *Path) runThreads() {
 	st := p.ts()
 	if len(st.threads) == 0 {
 		return
 	}
 	st.active = true
+	st.maxPreempts = p.e.cfg.MaxPreempts
 	mainFrames := p.frames
 	defer func() { st.active = false; p.frames = mainFrames }()
 	for {
@@ -113,11 +151,27 @@ func (p *Path) runThreads() {
 			panic(goPanic{msg: "deadlock: all threads blocked", site: "deadlock", stack: p.stackStrings()})
 		}
 		k := 0
-		if len(runnable) > 1 {
+		// the thread that just yielded at a preemption point (not blocked, not finished)
+		cont := -1
+		if st.last != nil && !st.last.done && st.last.wants == nil && st.last.started {
+			for i, r := range runnable {
+				if r == st.last {
+					cont = i
+				}
+			}
+		}
+		switch {
+		case cont >= 0 && st.preempts >= st.maxPreempts:
+			k = cont
+		case len(runnable) > 1:
 			k = p.choose(0, len(runnable)-1)
 			p.inputs = append(p.inputs, InputRec{Kind: "sched", Conc: int64(runnable[k].id)})
+			if cont >= 0 && k != cont {
+				st.preempts++
+			}
 		}
 		t := runnable[k]
+		st.last = t
 		st.order = append(st.order, t.id)
 		st.cur = t
 		if !t.started {
